@@ -62,6 +62,23 @@ def gen(ctx):
                 ops.append(f"inj:{rng.choice(pool)}:{rng.randrange(2)}")
             else:
                 ops.append("con")
+        if rng.random() < 0.12:
+            # injection-only history: keys are pressed and released through inject only (press when up, release when down),
+            # all columns strobed, the queue consumed often: the event grammar must hold for the injected keys too
+            ops = [f"kol:{strobe_all[0]}", f"koh:{strobe_all[1]}"]
+            isdown = set()
+            for _ in range(rng.randint(4, 30)):
+                r = rng.random()
+                if r < 0.35:
+                    c = rng.choice(pool)
+                    ops.append(f"inj:{c}:{1 if c in isdown else 0}")
+                    isdown ^= {c}
+                elif r < 0.85:
+                    ops += ["t"] * rng.choice([1, 2, 3, 7, rt + 1])
+                else:
+                    ops.append("con")
+            lines.append(f"{pt} {rt} {dl} {iv} {ah} {rep} {irq} " + " ".join(ops))
+            continue
         if rng.random() < 0.15:
             # overflow burst: many keys debounce in the same tick
             burst = rng.sample(keys, 12)
@@ -104,6 +121,17 @@ def oracle(ctx, name, line, obs, cap, koh_mask, valid=None):
     prev_isr = 0
     since_evt = {}     # code -> strobed scan ticks since its last press / repeat event
     first_rep = {}     # code -> the next repeat is the first one after a press event
+    inj_only = any(o.startswith("inj:") for o in ops) and not any(o.startswith(("p:", "r:", "rd")) for o in ops)
+    if inj_only:
+        # well-formed injection history: press only keys that are up, release only keys that are down
+        dn = set()
+        for o in ops:
+            if o.startswith("inj:"):
+                _, c, rel = o.split(":")
+                if (rel == "1") != (c in dn):
+                    inj_only = False
+                    break
+                dn ^= {c}
     dirty = set()      # keys touched by press/release calls or unstrobed since their last event: cadence not judged
     for k, (op, ob) in enumerate(zip(ops, res)):
         f = [int(x) for x in ob.split(",")]
@@ -196,7 +224,7 @@ def oracle(ctx, name, line, obs, cap, koh_mask, valid=None):
                         ctx.report([name, "press_event_late"], f"{name}: key {c} has been held on a strobed column for {pt} scan ticks (the debounce interval) but no press event was queued", {"case": " ".join(w[:7] + ops[:k + 1])})
                         return
             # --- per-key event grammar (scan-generated events only)
-            if p[0] in ("t", "rd") and not injected and not lossy:
+            if (p[0] in ("t", "rd") and not injected and not lossy) or (inj_only and p[0] in ("t", "inj") and not lossy):
                 for b in new:
                     c, rel = b & 0x7F, bool(b & 0x80)
                     if rel and not down.get(c, False):
